@@ -1,12 +1,17 @@
 (* Lemmas behind Props/C17.v: a started group member always progresses (Model/Group.v). *)
 From Coq Require Import Lia.
-From AV Require Import Base.Util Model.Group Model.GroupObs Proofs.GroupInv Proofs.GroupInvH.
+From AV Require Import Base.Util Model.Group Model.GroupObs Proofs.GroupInv Proofs.GroupInvH Proofs.GroupEsc.
 
 (* ---------- never idle ---------- *)
 Lemma never_idle : forall grp evs, let s := state_after grp evs in
   escaped s = false -> start_d s <> None -> stopping s = false -> stop_requested s = false ->
   gens s <> [] \/ (rejoin_needed s = false /\ hb_running s = true) \/ timers s <> [].
 Proof. intros grp evs s E Sd Stp Sr. exact (i_prog _ (reachable_Inv grp evs) Sd Stp Sr E). Qed.
+
+Lemma never_idle_benign : forall grp evs, let s := state_after grp evs in
+  benign evs = true -> start_d s <> None -> stopping s = false -> stop_requested s = false ->
+  gens s <> [] \/ (rejoin_needed s = false /\ hb_running s = true) \/ timers s <> [].
+Proof. intros grp evs s B. apply never_idle. apply benign_not_escaped. exact B. Qed.
 
 (* "rejoin timer pending": the DelayedCall the member remembers is one the reactor still holds *)
 Lemma rejoin_timer_armed : forall grp evs id, dc (state_after grp evs) = DcActive id -> In (id, TRejoin) (timers (state_after grp evs)).
